@@ -66,15 +66,17 @@ Theorem changetract_raises_version_by_one :
 Proof. exact change_version_lemma. Qed.
 Print Assumptions changetract_raises_version_by_one.
 
-(* [REFUTED] clause d for CommitRSChunk: a commit built from a scan made at version 1 and applied at version 3 succeeds and lowers the version to 2, finding F6, owned by C14 *)
+(* [REFUTED] clause d for CommitRSChunk WITHOUT the version check, the code before commit defd77a, do_commit_unchecked = PutRSChunk alone: a commit built from a scan made at version 1 and applied at version 3 succeeds and lowers the version to 2, finding F6; the repaired command do_commit refuses the same commit with ErrConflictingState and leaves the state alone *)
 Theorem commitrs_version_plus_one_refuted :
   exists d d' b b' t t',
     dapply_all d_init (firstn 7 f6_cmds) = Some (d, [[2; 1]; [3; 0]; [5; 4294967297; 0]; [6; 0; 1]; [1; 0]; [1; 0]; [9; 0; 2147483649; 1]]) /\
-    dapply d 8 (CCommitRS (2147483649, 1) c_ClassRS63 [1; 2; 3; 4; 5; 6; 7; 8; 9]
-                 [[mkET 4294967297 0 0 100 2]; []; []; []; []; []]) = Some (d', [1; e_NoError]) /\
+    do_commit_unchecked d (2147483649, 1) c_ClassRS63 [1; 2; 3; 4; 5; 6; 7; 8; 9]
+                 [[mkET 4294967297 0 0 100 2]; []; []; []; []; []] = Some (d', [1; e_NoError]) /\
     aget 4294967297 (d_blobs d) = Some b /\ aget 4294967297 (d_blobs d') = Some b' /\
     nth_error (b_tracts b) 0 = Some t /\ nth_error (b_tracts b') 0 = Some t' /\
-    t_version t = 3 /\ t_version t' = 2.
+    t_version t = 3 /\ t_version t' = 2 /\
+    do_commit d (2147483649, 1) c_ClassRS63 [1; 2; 3; 4; 5; 6; 7; 8; 9]
+                 [[mkET 4294967297 0 0 100 2]; []; []; []; []; []] = Some (d, [1; e_ConflictingState]).
 Proof. exact commit_lowers_version_witness. Qed.
 Print Assumptions commitrs_version_plus_one_refuted.
 
